@@ -6,7 +6,10 @@ package main
 
 import (
 	"go/constant"
+	"go/token"
 	"go/types"
+	"sort"
+	"strings"
 
 	"golang.org/x/tools/go/ssa"
 )
@@ -52,13 +55,19 @@ type Path struct {
 }
 
 // Find searches a path from start to a Target instruction that crosses no Barrier and no
-// forbidden edge. Returns nil if there is none.
+// forbidden edge. Returns nil if there is none. The search is path sensitive for the phis that a
+// branch of the function tests (`err` merged from several places, then `if err != nil`; a result
+// pointer tested for nil; a boolean flag): the value a phi took on the way is remembered, and a
+// branch on it is decided when that value is a nil constant, a provably non-nil error, a freshly
+// built value or a boolean constant - so that "failed, recorded the error, went on as if it had
+// not" is no path.
 func (wk *Walk) Find(start Loc) *Path {
 	type node struct {
 		b      *ssa.BasicBlock
+		env    phiEnv
 		parent *node
 	}
-	visited := map[*ssa.BasicBlock]bool{}
+	visited := map[string]bool{}
 	scan := func(b *ssa.BasicBlock, from int) (hit ssa.Instruction, blocked bool) {
 		for i := from; i < len(b.Instrs); i++ {
 			in := b.Instrs[i]
@@ -78,6 +87,7 @@ func (wk *Walk) Find(start Loc) *Path {
 		}
 		return &Path{Blocks: bs, Hit: hit}
 	}
+	tested := testedPhis(start.B.Parent())
 	root := &node{b: start.B}
 	hit, blocked := scan(start.B, start.I)
 	if hit != nil {
@@ -90,15 +100,18 @@ func (wk *Walk) Find(start Loc) *Path {
 	for len(queue) > 0 {
 		n := queue[0]
 		queue = queue[1:]
+		dec := branchDecision(n.b, n.env)
 		for k, s := range n.b.Succs {
-			if deadEdge(n.b, k) || (wk.EdgeOK != nil && !wk.EdgeOK(n.b, k)) {
+			if deadEdge(n.b, k) || (dec >= 0 && k != dec) || (wk.EdgeOK != nil && !wk.EdgeOK(n.b, k)) {
 				continue
 			}
-			if visited[s] {
+			env := n.env.enter(n.b, s, tested)
+			key := itoa(s.Index) + "|" + env.key()
+			if visited[key] {
 				continue
 			}
-			visited[s] = true
-			c := &node{b: s, parent: n}
+			visited[key] = true
+			c := &node{b: s, env: env, parent: n}
 			hit, blocked := scan(s, 0)
 			if hit != nil {
 				return mk(c, hit)
@@ -115,38 +128,367 @@ func (wk *Walk) Find(start Loc) *Path {
 // ReachableInstrs returns every instruction reachable from start without crossing a barrier.
 func (wk *Walk) ReachableInstrs(start Loc) []ssa.Instruction {
 	var out []ssa.Instruction
-	visited := map[*ssa.BasicBlock]bool{}
+	type node struct {
+		b   *ssa.BasicBlock
+		env phiEnv
+	}
+	visited := map[string]bool{}
+	emitted := map[*ssa.BasicBlock]bool{}
 	scan := func(b *ssa.BasicBlock, from int) bool {
 		for i := from; i < len(b.Instrs); i++ {
 			in := b.Instrs[i]
 			if wk.Barrier != nil && wk.Barrier(in) {
 				return false
 			}
-			out = append(out, in)
+			if !emitted[b] || from > 0 {
+				out = append(out, in)
+			}
+		}
+		if from == 0 {
+			emitted[b] = true
 		}
 		return true
 	}
-	var queue []*ssa.BasicBlock
+	tested := testedPhis(start.B.Parent())
+	var queue []node
 	if scan(start.B, start.I) {
-		queue = append(queue, start.B)
+		queue = append(queue, node{b: start.B})
 	}
 	for len(queue) > 0 {
-		b := queue[0]
+		n := queue[0]
 		queue = queue[1:]
-		for k, s := range b.Succs {
-			if deadEdge(b, k) || (wk.EdgeOK != nil && !wk.EdgeOK(b, k)) {
+		dec := branchDecision(n.b, n.env)
+		for k, s := range n.b.Succs {
+			if deadEdge(n.b, k) || (dec >= 0 && k != dec) || (wk.EdgeOK != nil && !wk.EdgeOK(n.b, k)) {
 				continue
 			}
-			if visited[s] {
+			env := n.env.enter(n.b, s, tested)
+			key := itoa(s.Index) + "|" + env.key()
+			if visited[key] {
 				continue
 			}
-			visited[s] = true
+			visited[key] = true
 			if scan(s, 0) {
-				queue = append(queue, s)
+				queue = append(queue, node{s, env})
 			}
 		}
 	}
 	return out
+}
+
+// phiEnv: the values the tested phis took on the path walked so far (small, immutable).
+type phiEnv []phiBinding
+
+type phiBinding struct {
+	phi *ssa.Phi
+	val ssa.Value
+}
+
+func (e phiEnv) get(p *ssa.Phi) (ssa.Value, bool) {
+	for _, b := range e {
+		if b.phi == p {
+			return b.val, true
+		}
+	}
+	return nil, false
+}
+
+func (e phiEnv) key() string {
+	if len(e) == 0 {
+		return ""
+	}
+	var sb strings.Builder
+	for _, b := range e {
+		sb.WriteString(b.phi.Name())
+		sb.WriteByte('=')
+		sb.WriteString(b.val.Name())
+		sb.WriteByte(';')
+	}
+	return sb.String()
+}
+
+// enter: the environment after following the edge pred→succ (phis of succ take their edge values;
+// a value that is itself a remembered phi is looked through).
+func (e phiEnv) enter(pred, succ *ssa.BasicBlock, tested map[*ssa.Phi]bool) phiEnv {
+	pi := predIndex(pred, succ)
+	if pi < 0 {
+		return e
+	}
+	var out phiEnv
+	changed := false
+	for _, in := range succ.Instrs {
+		phi, ok := in.(*ssa.Phi)
+		if !ok {
+			break
+		}
+		if !tested[phi] {
+			continue
+		}
+		v := phi.Edges[pi]
+		if p2, isPhi := v.(*ssa.Phi); isPhi {
+			if v2, ok := e.get(p2); ok {
+				v = v2
+			}
+		}
+		if !changed {
+			out = append(phiEnv(nil), e...)
+			changed = true
+		}
+		set := false
+		for i := range out {
+			if out[i].phi == phi {
+				out[i].val = v
+				set = true
+			}
+		}
+		if !set {
+			out = append(out, phiBinding{phi, v})
+			sort.Slice(out, func(i, j int) bool { return out[i].phi.Name() < out[j].phi.Name() })
+		}
+	}
+	if !changed {
+		return e
+	}
+	return out
+}
+
+var testedPhisCache = map[*ssa.Function]map[*ssa.Phi]bool{}
+
+// testedPhis: the phis of fn that some branch tests (against nil, or as a boolean).
+func testedPhis(fn *ssa.Function) map[*ssa.Phi]bool {
+	if m, ok := testedPhisCache[fn]; ok {
+		return m
+	}
+	m := map[*ssa.Phi]bool{}
+	for _, b := range fn.Blocks {
+		if len(b.Instrs) == 0 {
+			continue
+		}
+		iff, ok := b.Instrs[len(b.Instrs)-1].(*ssa.If)
+		if !ok {
+			continue
+		}
+		if phi, _, _ := condPhi(iff.Cond); phi != nil {
+			m[phi] = true
+			// phis feeding it
+			for _, e := range phi.Edges {
+				if p2, ok := e.(*ssa.Phi); ok {
+					m[p2] = true
+				}
+			}
+		}
+	}
+	testedPhisCache[fn] = m
+	return m
+}
+
+// condPhi decomposes a condition that tests a phi: returns the phi, whether the test is a nil
+// test (and its operator), and whether the condition is negated.
+func condPhi(cond ssa.Value) (phi *ssa.Phi, nilOp token.Token, neg bool) {
+	for {
+		u, isU := cond.(*ssa.UnOp)
+		if !isU || u.Op != token.NOT {
+			break
+		}
+		cond, neg = u.X, !neg
+	}
+	switch x := cond.(type) {
+	case *ssa.Phi:
+		if b, ok := x.Type().Underlying().(*types.Basic); ok && b.Kind() == types.Bool && x.Comment != "&&" && x.Comment != "||" {
+			return x, token.ILLEGAL, neg
+		}
+	case *ssa.BinOp:
+		if x.Op != token.EQL && x.Op != token.NEQ {
+			return nil, token.ILLEGAL, false
+		}
+		v := x.X
+		if isNilConst(x.X) {
+			v = x.Y
+		} else if !isNilConst(x.Y) {
+			return nil, token.ILLEGAL, false
+		}
+		if p, ok := v.(*ssa.Phi); ok {
+			return p, x.Op, neg
+		}
+	}
+	return nil, token.ILLEGAL, false
+}
+
+// branchDecision: which successor of b is feasible given the remembered phi values
+// (0: the true successor only, 1: the false successor only, -1: both).
+func branchDecision(b *ssa.BasicBlock, env phiEnv) int {
+	if len(env) == 0 || len(b.Instrs) == 0 {
+		return -1
+	}
+	iff, ok := b.Instrs[len(b.Instrs)-1].(*ssa.If)
+	if !ok {
+		return -1
+	}
+	phi, nilOp, neg := condPhi(iff.Cond)
+	if phi == nil {
+		return -1
+	}
+	v, ok := env.get(phi)
+	if !ok {
+		return -1
+	}
+	truth := 0 // 1 true, 2 false
+	if nilOp == token.ILLEGAL {
+		c, isC := v.(*ssa.Const)
+		if !isC || c.Value == nil || c.Value.Kind() != constant.Bool {
+			return -1
+		}
+		if constant.BoolVal(c.Value) {
+			truth = 1
+		} else {
+			truth = 2
+		}
+	} else {
+		isNil := 0 // 1 nil, 2 non-nil
+		at := phi.Block()
+		if in, ok := v.(ssa.Instruction); ok && in.Block() != nil {
+			at = in.Block()
+		}
+		switch {
+		case isNilConst(v):
+			isNil = 1
+		case isErrorType(v.Type()) && provablyNonNilErrorAfter(v):
+			isNil = 2
+		case freshNonNil(v, 0):
+			isNil = 2
+		}
+		_ = at
+		if isNil == 0 {
+			return -1
+		}
+		if (nilOp == token.EQL) == (isNil == 1) {
+			truth = 1
+		} else {
+			truth = 2
+		}
+	}
+	if neg {
+		truth = 3 - truth
+	}
+	if truth == 1 {
+		return 0
+	}
+	return 1
+}
+
+// provablyNonNilErrorAfter: an error value that reaches a phi only over an edge on which it was
+// found non-nil: it is built non-nil, or every use of it as a phi operand comes from a block
+// dominated by the `v != nil` edge.
+func provablyNonNilErrorAfter(v ssa.Value) bool {
+	if provablyNonNilError(v, nil, 0) {
+		return true
+	}
+	refs := v.Referrers()
+	if refs == nil {
+		return false
+	}
+	n := 0
+	for _, r := range *refs {
+		phi, ok := r.(*ssa.Phi)
+		if !ok {
+			continue
+		}
+		for i, e := range phi.Edges {
+			if e == v {
+				n++
+				if !dominatedByNonNil(v, phi.Block().Preds[i]) {
+					return false
+				}
+			}
+		}
+	}
+	return n > 0
+}
+
+// edgeDecision: entering b from pred decides b's branch (0: true successor only, 1: false
+// successor only, -1: undecided). Recognised: `if phi != nil` / `== nil` / `if phi` / `if !phi`
+// with phi defined in b and the value arriving from pred a nil constant, a provably non-nil
+// error, or a boolean constant.
+func edgeDecision(pred, b *ssa.BasicBlock) int {
+	if len(b.Instrs) == 0 || len(b.Preds) < 2 {
+		return -1
+	}
+	iff, ok := b.Instrs[len(b.Instrs)-1].(*ssa.If)
+	if !ok {
+		return -1
+	}
+	cond := iff.Cond
+	neg := false
+	for {
+		u, isU := cond.(*ssa.UnOp)
+		if !isU || u.Op != token.NOT {
+			break
+		}
+		cond, neg = u.X, !neg
+	}
+	pi := predIndex(pred, b)
+	if pi < 0 {
+		return -1
+	}
+	truth := 0 // 1 true, 2 false
+	switch x := cond.(type) {
+	case *ssa.Phi:
+		if x.Block() != b {
+			return -1
+		}
+		c, isC := x.Edges[pi].(*ssa.Const)
+		if !isC || c.Value == nil || c.Value.Kind() != constant.Bool {
+			return -1
+		}
+		if constant.BoolVal(c.Value) {
+			truth = 1
+		} else {
+			truth = 2
+		}
+	case *ssa.BinOp:
+		if x.Op != token.EQL && x.Op != token.NEQ {
+			return -1
+		}
+		v := x.X
+		if isNilConst(x.X) {
+			v = x.Y
+		} else if !isNilConst(x.Y) {
+			return -1
+		}
+		phi, isPhi := v.(*ssa.Phi)
+		if !isPhi || phi.Block() != b {
+			return -1
+		}
+		e := phi.Edges[pi]
+		isNil := 0 // 1 nil, 2 non-nil
+		if isNilConst(e) {
+			isNil = 1
+		} else if isErrorType(e.Type()) && provablyNonNilError(e, pred, 0) {
+			isNil = 2
+		} else if dominatedByNonNil(e, pred) {
+			isNil = 2
+		} else if freshNonNil(e, 0) {
+			isNil = 2
+		}
+		if isNil == 0 {
+			return -1
+		}
+		// cond is (v == nil) or (v != nil)
+		if (x.Op == token.EQL) == (isNil == 1) {
+			truth = 1
+		} else {
+			truth = 2
+		}
+	default:
+		return -1
+	}
+	if neg {
+		truth = 3 - truth
+	}
+	if truth == 1 {
+		return 0
+	}
+	return 1
 }
 
 func (w *World) PathString(p *Path) []string {
@@ -273,13 +615,22 @@ func provablyNonNilError(v ssa.Value, at *ssa.BasicBlock, depth int) bool {
 			return true
 		}
 	case *ssa.Phi:
-		for _, e := range x.Edges {
-			if !provablyNonNilError(e, at, depth+1) {
-				// an edge may also be guarded; keep it simple: require all edges non-nil
-				return false
+		all := len(x.Edges) > 0
+		for i, e := range x.Edges {
+			// each edge's value is judged where it comes from
+			from := at
+			if i < len(x.Block().Preds) {
+				from = x.Block().Preds[i]
+			}
+			if !provablyNonNilError(e, from, depth+1) {
+				all = false
+				break
 			}
 		}
-		return len(x.Edges) > 0
+		if all {
+			return true
+		}
+		// otherwise the merged value may still be guarded by `v != nil` on the way to `at`
 	}
 	// guarded by `v != nil` on every way into the block
 	return dominatedByNonNil(v, at)
@@ -618,4 +969,87 @@ func resolveAlong(v ssa.Value, path []*ssa.BasicBlock, pos int) ssa.Value {
 		v, pos = phi.Edges[pi], i-1
 	}
 	return v
+}
+
+// freshNonNil: the value is a freshly built, hence non-nil, pointer / slice / map / closure /
+// boxed value - directly or as the result of a module function all of whose returns are.
+func freshNonNil(v ssa.Value, depth int) bool {
+	if depth > 3 {
+		return false
+	}
+	switch x := v.(type) {
+	case *ssa.Alloc, *ssa.MakeInterface, *ssa.MakeClosure, *ssa.MakeMap, *ssa.MakeChan, *ssa.MakeSlice, *ssa.FieldAddr, *ssa.IndexAddr, *ssa.Function:
+		return true
+	case *ssa.ChangeType:
+		return freshNonNil(x.X, depth+1)
+	case *ssa.Phi:
+		for _, e := range x.Edges {
+			if !freshNonNil(e, depth+1) {
+				return false
+			}
+		}
+		return len(x.Edges) > 0
+	case *ssa.Call:
+		cal := StaticCallee(&x.Call)
+		if cal == nil || cal.Blocks == nil || !inModule(cal) || cal.Signature.Results().Len() != 1 {
+			return false
+		}
+		// a wrapper that switches on the dynamic type of its (single interface) argument, called
+		// with a value of known type: follow the arm that type selects
+		if len(x.Call.Args) == 1 && len(cal.Params) == 1 {
+			if mi, ok := x.Call.Args[0].(*ssa.MakeInterface); ok {
+				if r := returnForDynType(cal, mi.X.Type()); r != nil {
+					return freshNonNil(r, depth+1)
+				}
+			}
+		}
+		all, n := true, 0
+		eachInstr(cal, func(in ssa.Instruction) {
+			if ret, ok := in.(*ssa.Return); ok {
+				n++
+				if !freshNonNil(retVal(ret, 0), depth+1) {
+					all = false
+				}
+			}
+		})
+		return all && n > 0
+	}
+	return false
+}
+
+// returnForDynType: the value fn returns when its interface parameter holds a value of type t,
+// if fn only branches on comma-ok type assertions of that parameter on the way (nil otherwise).
+func returnForDynType(fn *ssa.Function, t types.Type) ssa.Value {
+	b := fn.Blocks[0]
+	for steps := 0; steps < 64; steps++ {
+		last := b.Instrs[len(b.Instrs)-1]
+		switch x := last.(type) {
+		case *ssa.Return:
+			if len(x.Results) != 1 {
+				return nil
+			}
+			return retVal(x, 0)
+		case *ssa.Jump:
+			b = b.Succs[0]
+		case *ssa.If:
+			ex, ok := x.Cond.(*ssa.Extract)
+			if !ok || ex.Index != 1 {
+				return nil
+			}
+			ta, ok := ex.Tuple.(*ssa.TypeAssert)
+			if !ok || !ta.CommaOk || ta.X != ssa.Value(fn.Params[0]) {
+				return nil
+			}
+			if types.Identical(ta.AssertedType, t) {
+				b = b.Succs[0]
+			} else if _, isIface := ta.AssertedType.Underlying().(*types.Interface); isIface {
+				return nil
+			} else {
+				b = b.Succs[1]
+			}
+		default:
+			return nil
+		}
+	}
+	return nil
 }
